@@ -10,8 +10,9 @@ Model side: PcModel/Drv/Safety.lean `p2wide` = exact `P2(x, a)` for an interval 
 (`P2_refines` + `B = 0`), so a disagreement is a failing input (oracle stream).
 The ops are chosen so that the sieved range has a handful of numbers: each costs < 0.3 s (the two pi() calls).
 
-NOT hooked into ./check C16 by default: on the pinned tree it reports the violation (which is the finding). Enable with
-PCV_SAFETY_P2WIDE=1 (see notes/wp-safety.md); after the one-line fix it is a regression guard and can be enabled for good.
+On the tree this WP started from (/repo 0995f00) the stream reports the violation (6 of 30 ops, which is the finding F9).
+/repo 8cccffb ("fix: P2(int128_t x, y, a) overflowed a 64-bit product", committed while this WP ran) computes the product in T:
+the stream is a regression guard and is ON by default; PCV_SAFETY_P2WIDE=0 switches it off.
 """
 import os
 from .runner import Stream
@@ -33,7 +34,7 @@ def p2wide_ops(ctx):
 
 
 def enabled():
-    return os.environ.get("PCV_SAFETY_P2WIDE", "") == "1"
+    return os.environ.get("PCV_SAFETY_P2WIDE", "1") != "0"
 
 
 def streams(ctx):
